@@ -42,6 +42,12 @@ impl<I: Interner> SLGSolver<I> {
                     .filter(|a| !a.subst.value.delayed_subgoals.is_empty())
                     .count(),
                 strands: table.strands().count(),
+                goal_body: format!("{:?}", table.table_goal.canonical.value.goal),
+                delayed_goals: answers
+                    .iter()
+                    .flat_map(|a| a.subst.value.delayed_subgoals.iter())
+                    .map(|d| format!("{:?}", d.goal))
+                    .collect(),
             });
         }
         out
